@@ -180,13 +180,30 @@ def build_program(protos, org_raw, with_org, labels_raw):
     # pass 1: kinds, labels, EQU pool
     kinds = [_KIND_TABLE[p[0] % len(_KIND_TABLE)] for p in protos]
     equs = {}
+    equ_def = {}      # name -> value description: literal, alias of another EQU, or other EQU +- c
     labels = []
+    n_equ = sum(1 for k in kinds if k == "equ")
+    backward = org_raw % 2 == 0      # chains refer to EQUs defined earlier in the text (else: later)
     for i, (p, k) in enumerate(zip(protos, kinds)):
         if k == "equ":
-            name = "E%d" % len(equs)
+            j = len(equs)
+            name = "E%d" % j
             equs[name] = _EQU_VALUES[p[1] % len(_EQU_VALUES)] if p[2] % 4 else (p[1] * 257 + p[3]) % 65536
+            others = list(range(0, j)) if backward else list(range(j + 1, n_equ))
+            if others and p[4] % 3 == 0:
+                equ_def[name] = ("E%d" % others[p[5] % len(others)], ["", "+", "-"][p[6] % 3], 1 + p[7] % 8)
         elif labels_raw[i % len(labels_raw)] % 5 < 2:
             labels.append((i, "L%d" % len(labels)))
+    # values of the EQUs that are defined through another EQU (no cycles: references go one way only)
+    for j in (range(n_equ) if backward else range(n_equ - 1, -1, -1)):
+        name = "E%d" % j
+        if name in equ_def:
+            base, op, c = equ_def[name]
+            v = equs[base] + (c if op == "+" else -c if op == "-" else 0)
+            if -32768 <= v <= 65535:
+                equs[name] = v
+            else:
+                del equ_def[name]
     label_at = dict(labels)
     label_names = [n for _, n in labels]
     small_equ = [n for n, v in equs.items() if -128 <= v <= 255]
@@ -318,7 +335,11 @@ def build_program(protos, org_raw, with_org, labels_raw):
         elif k == "equ":
             name = next(equ_iter)
             s["lab"] = name
-            s["val"] = lit(equs[name], p[3])
+            if name in equ_def:
+                base, op, c = equ_def[name]
+                s["val"] = {"sym": base, "op": op, "c": c if op else 0}
+            else:
+                s["val"] = lit(equs[name], p[3])
         elif k == "misc":
             which = p[1] % 3
             if which == 0:
@@ -457,6 +478,22 @@ def check_layout(program, out, check_meaning=True):
     a = origin
     layout = []
     env = {}
+    # EQU values: literals first, then definitions through other EQUs (any textual order)
+    equ_values = {}
+    pending = [s for s in stmts if s["k"] == "equ"]
+    while pending:
+        rest = []
+        for s in pending:
+            v = s["val"]
+            if "lit" in v:
+                equ_values[s["lab"]] = v["lit"]
+            elif v["sym"] in equ_values:
+                equ_values[s["lab"]] = value_of(v, equ_values)
+            else:
+                rest.append(s)
+        if len(rest) == len(pending):
+            return "EQU definitions cannot be ordered (harness)", None, None
+        pending = rest
     decoded = []
     for i, s in enumerate(stmts):
         k = s["k"]
@@ -471,7 +508,7 @@ def check_layout(program, out, check_meaning=True):
         if s.get("lab") and k != "equ":
             env[s["lab"]] = a
         if k == "equ":
-            env[s["lab"]] = s["val"]["lit"]
+            env[s["lab"]] = equ_values[s["lab"]]
         off = a - origin
         if k in INSTR_KINDS:
             insn = R.decode(image, off)
